@@ -14,7 +14,9 @@ EXPLANATION = (
     'multiplies by a non-negative real; the consumer (the general solver base) uses exact tests; (D3) the classification of a 2x2 '
     'diagonal block is exhaustive and consistent between producer and consumer: the Schur class triangularises the block exactly '
     'when the discriminant is >= 0 (zero included), and the eigen-solver treats a block as a complex pair exactly when its '
-    'sub-diagonal entry is non-zero -- so a real double eigenvalue can never be emitted as a pair with zero imaginary part. '
+    'sub-diagonal entry is non-zero -- so a real double eigenvalue can never be emitted as a pair with zero imaginary part; '
+    '(D4) every exceptional shift added to the running total is subtracted from every diagonal entry of the active part (rows '
+    '0..iu inclusive) in the same branch -- necessary for the result to be similar to H itself. '
     'Does NOT decide backward stability, orthogonality of Z / U, or unit norm of eigenvectors (floating-point magnitudes).')
 ASSUMPTIONS = ['sqrt and abs return non-negative values; conversion of a real to std::complex sets the imaginary part to +0']
 
@@ -248,7 +250,66 @@ def block_classification(ctx, rule='2x2-block-classification-exhaustive'):
                   'block reduced to triangular form exactly when the discriminant is >= 0 (zero included)' if not problems else '; '.join(problems))
 
 
+def exceptional_shift_accounting(ctx, rule='exceptional-shift-covers-active-diagonal'):
+    """Whenever an exceptional shift s is added to the running total (which is added back to a diagonal entry when its row
+    converges), the same s is subtracted from EVERY diagonal entry of the active part, rows 0..iu inclusive -- otherwise the
+    result is similar to H + O(|s|), not to H.  Pairing + range agreement between the sibling branches."""
+    fns = ctx.F.insts('Spectra::UpperHessenbergSchur::compute_shift')
+    for fn in fns:
+        pn = {fn.locals[v]['name']: fn.locals[v]['type'] for v in fn.params}
+        acc = [n for n, t in pn.items() if t.endswith('&') and not t.startswith('const') and t.split()[0] in ('double', 'float', 'long')]
+        iu = [fn.locals[v]['name'] for v in fn.params][0]
+        adds = [x for x in fn.walk() if x['k'] == 'CompoundAssignOperator' and x.get('op') == '+=' and sym(fn, x['c'][0], inline=False)[0] == 'P' and
+                sym(fn, x['c'][0], inline=False)[1] in acc]
+        if len(adds) < 2:
+            raise AnalysisBroken('%s: %d accumulations of an exceptional shift (2 confirmed by hand)' % (fn.qname, len(adds)))
+        for k, a in enumerate(adds):
+            amount = sym(fn, a['c'][1], inline=False)
+            # the branch (then-block of the nearest enclosing if) that contains the accumulation
+            scope = None
+            for anc in fn.ancestors(a):
+                if anc['k'] == 'IfStmt' and fn.within(a, anc['then']):
+                    scope = anc['then']
+                    break
+            if scope is None:
+                scope = fn.body
+            ok = False
+            why = 'no subtraction of %s from the diagonal found in the same branch' % show(amount)
+            for x in fn.walk(scope):
+                if x['k'] not in ('CompoundAssignOperator', 'CXXOperatorCallExpr') or x.get('op') != '-=':
+                    continue
+                t = sym(fn, x, inline=False)
+                if t[2] != amount:
+                    continue
+                lhs = t[1]
+                loops = [l for l in fn.ancestors(x) if l['k'] == 'ForStmt' and fn.within(l, scope)]
+                if loops and lhs[0] in ('coeffRef', '()') and lhs[1] == ('F', 'm_T') and len(lhs) == 4 and lhs[2] == lhs[3]:
+                    lp = loops[0]
+                    init = fn.node(lp.get('init', -1))
+                    c = sym(fn, lp['cond'], inline=False)
+                    lo = sym(fn, init['decls'][0]['init'], inline=False) if init is not None and init['k'] == 'DeclStmt' else None
+                    upto = None
+                    if c[0] == '<=' and c[1] == lhs[2]:
+                        upto = c[2]
+                    elif c[0] == '<' and c[1] == lhs[2] and c[2] == ('+', ('P', iu), ('lit', '1')):
+                        upto = ('P', iu)
+                    if lo == ('lit', '0') and upto == ('P', iu):
+                        ok = True
+                    else:
+                        why = 'the shift is subtracted from rows [%s, %s] only, not from 0..%s' % (show(lo) if lo else '?', show(upto) if upto else show(c), iu)
+                elif lhs[0] in ('array', 'head') :
+                    h = lhs[1] if lhs[0] == 'array' else lhs
+                    if h[0] == 'head' and h[1] == ('diagonal', ('F', 'm_T')):
+                        if h[2] in (('+', ('P', iu), ('lit', '1')), ('+', ('lit', '1'), ('P', iu))):
+                            ok = True
+                        else:
+                            why = 'the shift is subtracted from the first %s diagonal entries, not from all %s + 1 rows of the active part' % (show(h[2]), iu)
+            ctx.check(ok, rule, 'UpperHessenbergSchur::compute_shift#%d' % (k + 1), fn.qname,
+                      'shift %s accumulated and subtracted from rows 0..%s' % (show(amount), iu) if ok else why)
+
+
 def run(ctx):
     cap_implies_throw(ctx)
+    exceptional_shift_accounting(ctx)
     exact_conventions(ctx)
     block_classification(ctx)
